@@ -186,6 +186,13 @@ def callee_name(fn_op):
     return f or r or d
 
 
+def is_negated_forward(fn_op):
+    """The call is `PartialEq::ne` and callee_name() reports the `eq` it forwards to: the boolean result is the
+    negation of the reported callee's."""
+    d, r, f = callee_keys(fn_op)
+    return bool(f) and (d or "").endswith("cmp::PartialEq::ne") and not f.endswith("::ne")
+
+
 class BodyView:
     """A body under one (BITS, LIMBS) configuration (or none): constant
     propagation over configuration constants, pruned CFG, dominators."""
